@@ -508,3 +508,49 @@ func ruleIncludeGuard(c *Ctx, r *Report) {
 	}
 	r.analysed(rule, fmt.Sprintf("%d file-driven static recursions", n))
 }
+
+// ---------------------------------------------------------------------------
+// R-VARIANT-BIJECTIVE (C11; added with fix F23): two witnesses belong to one group of bagof/3 / setof/3 iff
+// they are variants: equal up to a ONE-TO-ONE renaming of variables. A single map from the variables of
+// one term to those of the other detects that one variable would have to correspond to two, but not that
+// two variables correspond to one: f(A,B) passes for a variant of f(C,C). In the variable/variable case of
+// the variant test two different maps are consulted (one keyed by each side), or the one map is scanned.
+
+func ruleVariantBijective(c *Ctx, r *Report) {
+	const rule = "R-VARIANT-BIJECTIVE"
+	fn := c.fn("variant")
+	if fn == nil {
+		r.undecided(rule, "anchor:variant", "-", "locate variant", "not found")
+		return
+	}
+	desc := "the variant test keeps the variable correspondence in both directions"
+	maps := map[ssa.Value]bool{}
+	ranged := false
+	nlook := 0
+	eachInstr(fn, func(in ssa.Instruction) {
+		switch x := in.(type) {
+		case *ssa.Lookup:
+			if _, ok := x.X.Type().Underlying().(*types.Map); !ok {
+				return
+			}
+			nlook++
+			for _, l := range c.originSet(x.X) {
+				maps[l] = true
+			}
+		case *ssa.Range:
+			if _, ok := x.X.Type().Underlying().(*types.Map); ok {
+				ranged = true
+			}
+		}
+	})
+	key := fname(fn) + "/correspondence"
+	switch {
+	case len(maps) >= 2:
+		r.ok(rule, key, c.Pos(fn.Pos()), desc, fmt.Sprintf("%d lookups in %d distinct maps", nlook, len(maps)), true)
+	case ranged:
+		r.ok(rule, key, c.Pos(fn.Pos()), desc, "one map, scanned for the inverse direction", true)
+	default:
+		r.bad(rule, key, c.Pos(fn.Pos()), desc, fmt.Sprintf("%d map(s) consulted, none scanned: two variables of one witness may correspond to one variable of the other - f(A,B) and f(C,C) fall into one group when the more general witness comes second", len(maps)))
+	}
+	r.analysed(rule, fname(fn))
+}
